@@ -230,6 +230,223 @@ func runC01(c *Ctx) {
 			itoa(bad)+" success path(s) return nil without recording the new stage")
 	}
 
+	// ---------------------------------------------------------------- C01.4
+	c.Rule("C01.4", "the pipeline's decision table: work is skipped only when nothing has to change, and every needed stage helper is on the path", 4)
+	sameCodecF := p.MustField("message", "sameCodec")
+	sameComprF := p.MustField("message", "sameCompression")
+	wasComprF := p.MustField("message", "wasCompressed")
+	helper := map[string]*ssa.Function{}
+	for _, n := range []string{"decompress", "compress", "decode", "encode"} {
+		helper[n] = p.MethodOf(msgT, n)
+	}
+	{
+		paths, ok := EnumPaths(adv.Blocks[0], nil, IsReturn, 0)
+		if !ok {
+			c.Unknown("C01.4", FuncName(adv), "paths", adv.Pos(), "too many paths")
+		}
+		type verdict struct {
+			bad int
+			why string
+		}
+		res := map[string]*verdict{"skip-only-when-nothing-changes": {}, "decompress-before-decode": {}, "encode-when-codec-differs": {}, "recompress-when-compressed": {}}
+		counted := 0
+		for _, cp := range paths {
+			ret := cp.End.(*ssa.Return)
+			if !IsNilConst(cp.Deref(ret.Results[0])) {
+				continue
+			}
+			if !cp.FieldConsistent() {
+				continue // infeasible: repeated loads of the same flag / stage disagree
+			}
+			var seq []string
+			recursive, storedStage := false, false
+			for _, b := range cp.Blocks {
+				for _, in := range b.Instrs {
+					if ci, ok := in.(ssa.CallInstruction); ok {
+						for _, cal := range p.CalleesAt(ci) {
+							for n, h := range helper {
+								if cal == h {
+									seq = append(seq, n)
+								}
+							}
+							if cal == adv {
+								recursive = true
+							}
+						}
+					}
+					if st, ok := in.(*ssa.Store); ok {
+						if fa, ok := st.Addr.(*ssa.FieldAddr); ok && FieldOfAddr(fa) == stageF {
+							storedStage = true
+						}
+					}
+				}
+			}
+			tv := func(f *types.Var) (val, known bool) {
+				for cond, truth := range cp.Truth {
+					if LoadedField(cond) == f {
+						return truth, true
+					}
+				}
+				return false, false
+			}
+			has := func(n string) bool {
+				for _, x := range seq {
+					if x == n {
+						return true
+					}
+				}
+				return false
+			}
+			counted++
+			sc, scK := tv(sameCodecF)
+			wc, wcK := tv(wasComprF)
+			sm, smK := tv(sameComprF)
+			if storedStage && !recursive && len(seq) == 0 {
+				// work skipped
+				okSkip := scK && sc && (wcK && !wc || smK && sm)
+				if !okSkip {
+					res["skip-only-when-nothing-changes"].bad++
+				}
+			}
+			if has("decode") && wcK && wc {
+				okOrder := false
+				for i, x := range seq {
+					if x == "decompress" {
+						for _, y := range seq[i+1:] {
+							if y == "decode" {
+								okOrder = true
+							}
+						}
+					}
+				}
+				if !okOrder {
+					res["decompress-before-decode"].bad++
+				}
+			}
+			if !recursive && storedStage && len(seq) > 0 && !has("decode") && !has("decompress") {
+				// the decoded -> send leg
+				if scK && !sc && !has("encode") {
+					res["encode-when-codec-differs"].bad++
+				}
+				if wcK && wc && !has("compress") {
+					res["recompress-when-compressed"].bad++
+				}
+			}
+			if !recursive && storedStage && has("decompress") && !has("decode") && !has("compress") {
+				// read -> send with same codec: decompress must be followed by compress
+				res["recompress-when-compressed"].bad++
+			}
+		}
+		for _, k := range []string{"skip-only-when-nothing-changes", "decompress-before-decode", "encode-when-codec-differs", "recompress-when-compressed"} {
+			text := map[string][2]string{
+				"skip-only-when-nothing-changes": {"the stage is advanced without any work only on paths with sameCodec true and (wasCompressed false or sameCompression true)", "a path advances the message to the send stage without decoding/re-encoding or re-compressing although codec or compression differ: bytes in the source encoding are sent under the target's content-type"},
+				"decompress-before-decode":       {"a compressed message is decompressed before it is decoded", "a path decodes a message that was compressed without decompressing it first"},
+				"encode-when-codec-differs":      {"when the codecs differ the decoded message is re-encoded before it is sent", "a path sends without re-encoding although the codecs differ"},
+				"recompress-when-compressed":     {"a message that arrived compressed is re-compressed for the outgoing leg (the envelope flag says so)", "a path leaves a message that arrived compressed uncompressed (or only decompresses it) while its envelope flag / declared encoding says compressed"},
+			}[k]
+			c.Check(res[k].bad == 0 && counted > 0, "C01.4", FuncName(adv), k, adv.Pos(), text[0]+" ("+itoa(counted)+" success paths)", itoa(res[k].bad)+" path(s): "+text[1])
+		}
+	}
+
+	// ---------------------------------------------------------------- C01.5
+	c.Rule("C01.5", "each stage helper uses the source side's codec/compression to read and the destination side's to write", 4)
+	isReqF := p.MustField("message", "isRequest")
+	type want struct{ helper, method, onRequest, onResponse string }
+	for _, w := range []want{
+		{"decode", "Unmarshal", "client.codec", "server.codec"},
+		{"encode", "MarshalAppend", "server.codec", "client.codec"},
+	} {
+		fn := helper[w.helper]
+		n := 0
+		for _, call := range Calls(fn) {
+			cc := call.Common()
+			if !cc.IsInvoke() || cc.Method.Name() != w.method {
+				continue
+			}
+			n++
+			// the receiver is a phi over the two sides: resolve per incoming edge
+			good := true
+			var seen []string
+			ph, ok := cc.Value.(*ssa.Phi)
+			if !ok {
+				good = false
+			} else {
+				for i, e := range ph.Edges {
+					f := LoadedField(e)
+					side := ""
+					if PathOfHasSide(e, "client") {
+						side = "client"
+					} else if PathOfHasSide(e, "server") {
+						side = "server"
+					}
+					if f == nil || side == "" {
+						good = false
+						continue
+					}
+					got := side + "." + f.Name()
+					isReq, known := false, false
+					for _, fct := range FactsOnEdge(ph.Block().Preds[i], ph.Block()) {
+						if LoadedField(fct.Cond) == isReqF {
+							isReq, known = fct.Truth, true
+						}
+					}
+					seen = append(seen, got)
+					if !known || isReq && got != w.onRequest || !isReq && got != w.onResponse {
+						good = false
+					}
+				}
+			}
+			c.Check(good, "C01.5", FuncName(fn), "codec-side:"+w.method, call.Pos(),
+				w.helper+" uses "+w.onRequest+" for requests and "+w.onResponse+" for responses",
+				w.helper+" does not pick the codec by direction as (request: "+w.onRequest+", response: "+w.onResponse+"); found "+joinStr(seen)+": messages are parsed or produced with the other leg's codec")
+		}
+		if n == 0 {
+			c.Bad("C01.5", FuncName(fn), "codec-side:"+w.method, fn.Pos(), "no "+w.method+" call through a codec found: shape changed")
+		}
+	}
+	for _, w := range []want{{"decompress", "", "client.reqCompression", "client.respCompression"}, {"compress", "", "server.reqCompression", "server.respCompression"}} {
+		fn := helper[w.helper]
+		good := false
+		var seen []string
+		ForEachInstr(fn, func(in ssa.Instruction) {
+			ph, ok := in.(*ssa.Phi)
+			if !ok || !isPtrTo(ph.Type(), RootPath, "compressionPool") {
+				return
+			}
+			okAll := len(ph.Edges) == 2
+			for i, e := range ph.Edges {
+				f := LoadedField(e)
+				side := ""
+				if PathOfHasSide(e, "client") {
+					side = "client"
+				} else if PathOfHasSide(e, "server") {
+					side = "server"
+				}
+				if f == nil {
+					okAll = false
+					continue
+				}
+				got := side + "." + f.Name()
+				seen = append(seen, got)
+				isReq, known := false, false
+				for _, fct := range FactsOnEdge(ph.Block().Preds[i], ph.Block()) {
+					if LoadedField(fct.Cond) == isReqF {
+						isReq, known = fct.Truth, true
+					}
+				}
+				if !known || isReq && got != w.onRequest || !isReq && got != w.onResponse {
+					okAll = false
+				}
+			}
+			if okAll {
+				good = true
+			}
+		})
+		c.Check(good, "C01.5", FuncName(fn), "compression-side", fn.Pos(),
+			w.helper+" uses "+w.onRequest+" for requests and "+w.onResponse+" for responses",
+			w.helper+" does not select the compression pool by direction as (request: "+w.onRequest+", response: "+w.onResponse+"); found "+joinStr(seen))
+	}
+
 	// ---------------------------------------------------------------- C01.3
 	c.Rule("C01.3", "a reused message starts with an empty buffer", 1)
 	reset := p.MethodOf(msgT, "reset")
